@@ -247,17 +247,30 @@ def analyse(job):
                     cid, _ = classify_sub(sd, resolver, stats)
                     subclass[j] = cid if cid is not None else ('unmatched', j)
                 if 'C02' in props:
+                    cls_of = {}
                     for i, sa in enumerate(d['subautomata']):
                         if sa is None:
                             continue
                         c_raw, _ = classify_sub(sa['raw'], resolver, stats)
                         c_min, _ = classify_sub(sa['min'], resolver, stats)
+                        cls_of[i] = c_min
                         if c_raw is None or c_min is None or c_raw != c_min:
                             res['violations'].append((
                                 'C02', 'subword-language:sub',
                                 'within-word automaton %d (raw class %r, minimised class %r) does not denote any '
                                 'within-word expression of the grammar' % (i, c_raw, c_min),
                                 {'grammar': text, 'shell': shell, 'subautomaton': sa}))
+
+                if 'C02' in props:
+                    # the compiler merges within-word automata that its own `==` calls equal (DFAInternPool, a hash set:
+                    # whether two equal ones really meet depends on the per-process hash seed); `==` must imply equal languages
+                    for (i, j) in d.get('subautomata_eq', []):
+                        if cls_of.get(i) is not None and cls_of.get(j) is not None and cls_of[i] != cls_of[j]:
+                            res['violations'].append((
+                                'C02', 'intern-equality-unsound',
+                                'the compiler\'s equality on automata (by which within-word automata are merged) calls within-word automata %d and %d '
+                                'equal although they accept different words (reference classes %r and %r)' % (i, j, cls_of[i], cls_of[j]),
+                                {'grammar': text, 'shell': shell, 'a': d['subautomata'][i]['min'], 'b': d['subautomata'][j]['min']}))
 
                 def keyfn(inp):
                     if inp['kind'] == 'sub':
